@@ -130,6 +130,20 @@ func report(id string, opt runOpts, L *Loaded, results []*UnitResult, outcomes m
 			viols = append(viols, viol{n, o, "claimed obligation not discharged: " + o.status})
 		}
 	}
+	// claimed obligations that were not generated under their name, by stem (the name without the call text and
+	// the ~k counter): an edited call site renames its call-precondition obligations, it must not unclaim them
+	missingStem := map[string]string{}
+	claimedUnit := map[string]bool{} // units with at least one claimed law obligation
+	for _, n := range ledger.Claimed {
+		if kindOfName(n) == "law" {
+			claimedUnit[funcOfObl(n)] = true
+		}
+	}
+	for _, n := range ledger.Claimed {
+		if _, ok := outcomes[n]; !ok {
+			missingStem[stemOfObl(n)] = n
+		}
+	}
 	// obligations generated now but not claimed
 	for _, n := range order {
 		if claimed[n] {
@@ -142,6 +156,15 @@ func report(id string, opt runOpts, L *Loaded, results []*UnitResult, outcomes m
 		}
 		if kf := matchKnown(known, id, n); kf != nil {
 			knownLines = append(knownLines, fmt.Sprintf("KNOWN-FINDING: property=%s %s %s", id, n, kf.What))
+			continue
+		}
+		if kindOfName(n) == "law" && claimedUnit[funcOfObl(n)] {
+			// a law is claimed for the table, i.e. for every entry and every operator registered now or later
+			viols = append(viols, viol{n, o, "law obligation of a claimed table not discharged: " + o.status + " (new entry, pair of entries or flagged operator)"})
+			continue
+		}
+		if was, renamed := missingStem[stemOfObl(n)]; renamed {
+			viols = append(viols, viol{n, o, "obligation not discharged: " + o.status + " (claimed as " + was + " before the call site was edited)"})
 			continue
 		}
 		entry := map[string]string{"obligation": n, "status": o.status}
@@ -305,4 +328,33 @@ func extraJobs(L *Loaded, id string, opt runOpts) []unitJob { return extraJobsIm
 // a cover query guards against vacuity: it fails only if the solver proves the path unreachable
 func coverOK(status string) bool {
 	return status == "sat" || status == "unknown" || status == "timeout"
+}
+
+// stemOfObl: the obligation name without the source text of the call site and without the ~k occurrence counter.
+// unit#callpre:callee.clause:<call text>~2  ->  unit#callpre:callee.clause
+func stemOfObl(n string) string {
+	i := strings.Index(n, "#")
+	if i < 0 {
+		return n
+	}
+	unit, rest := n[:i], n[i+1:]
+	if j := strings.LastIndex(rest, "~"); j >= 0 {
+		digits := rest[j+1:]
+		allDigits := digits != ""
+		for _, c := range digits {
+			if c < '0' || c > '9' {
+				allDigits = false
+			}
+		}
+		if allDigits {
+			rest = rest[:j]
+		}
+	}
+	if strings.HasPrefix(rest, "callpre:") {
+		parts := strings.SplitN(rest, ":", 3) // callpre, callee.clause, call text
+		if len(parts) == 3 {
+			rest = parts[0] + ":" + parts[1]
+		}
+	}
+	return unit + "#" + rest
 }
